@@ -38,9 +38,11 @@ Definition spec_step (a : spec) (o : op) : spec :=
   | OSet k (Some v) ttl => spec_put a k v ttl
   | OCas k old (Some v) ttl =>                 (* old = None: only if the key is absent *)
       if opt_json_eqb (dget (sdata a) k) old then spec_put a k v ttl else a
-  | OCas k (Some o) None _ | OCasRemove k (Some o) =>
-      if opt_json_eqb (dget (sdata a) k) (Some o) then spec_del a k else a
-  | OCas k None None _ | OCasRemove k None => a
+  | OCas k old None _ | OCasRemove k old =>
+      match old with
+      | Some o => if opt_json_eqb (dget (sdata a) k) (Some o) then spec_del a k else a
+      | None => a
+      end
   | ORemove k => spec_del a k
   | OAddL _ | ORemoveL _ => a
   | OFireLate _ => a                           (* a superseded timer has no say *)
